@@ -296,9 +296,12 @@ package wkbcommon
 //@   callpre writeCollection: istype(old(geom), orb.Collection) && same(arg1, as(old(geom), orb.Collection)) && arg2 == srid
 
 // the multi kinds: type prefix with the member count and the caller's srid, then EVERY member through
-// Encode with srid 0 (the loop is left only after the last member; an error returns at once)
+// Encode with srid 0 (the loop is left only after the last member; an error returns at once); these
+// writers hand nothing to the io.Writer themselves (`callpre Write: false`): each member record, with
+// its own order byte in the encoder's order, is produced by Encode
 //@ func (*Encoder).writeMultiPoint(e, mp, srid)
 //@   requires e.w != nil && e.order != nil && len(e.buf) == 16
+//@   callpre Write: false
 //@   modifies *e, e.buf[*]
 //@   ensures e.w == old(e.w) && e.order == old(e.order) && same(e.buf, old(e.buf))
 //@   callpre writeTypePrefix: arg1 == multiPointType && arg2 == len(mp) && arg3 == srid
@@ -307,6 +310,7 @@ package wkbcommon
 //@   loop 1: exit rangeindex + 1 >= len(mp) || err != nil
 //@ func (*Encoder).writeMultiLineString(e, mls, srid)
 //@   requires e.w != nil && e.order != nil && len(e.buf) == 16
+//@   callpre Write: false
 //@   modifies *e, e.buf[*]
 //@   ensures e.w == old(e.w) && e.order == old(e.order) && same(e.buf, old(e.buf))
 //@   callpre writeTypePrefix: arg1 == multiLineStringType && arg2 == len(mls) && arg3 == srid
@@ -315,6 +319,7 @@ package wkbcommon
 //@   loop 1: exit rangeindex + 1 >= len(mls) || err != nil
 //@ func (*Encoder).writeMultiPolygon(e, mp, srid)
 //@   requires e.w != nil && e.order != nil && len(e.buf) == 16
+//@   callpre Write: false
 //@   modifies *e, e.buf[*]
 //@   ensures e.w == old(e.w) && e.order == old(e.order) && same(e.buf, old(e.buf))
 //@   callpre writeTypePrefix: arg1 == multiPolygonType && arg2 == len(mp) && arg3 == srid
@@ -323,6 +328,7 @@ package wkbcommon
 //@   loop 1: exit rangeindex + 1 >= len(mp) || err != nil
 //@ func (*Encoder).writeCollection(e, c, srid)
 //@   requires e.w != nil && e.order != nil && len(e.buf) == 16
+//@   callpre Write: false
 //@   modifies *e, e.buf[*]
 //@   ensures e.w == old(e.w) && e.order == old(e.order) && same(e.buf, old(e.buf))
 //@   callpre writeTypePrefix: arg1 == geometryCollectionType && arg2 == len(c) && arg3 == srid
